@@ -446,6 +446,13 @@ class Sym:
     def __repr__(s):
         return "Sym(%s)" % (str(s.t).replace("\n", " ")[:80])
 
+    def __format__(s, spec):
+        # formatting (log messages) never feeds back into the computation
+        v = _const_value(s)
+        if v is not None and spec:
+            return format(float(v), spec)
+        return repr(s) if not spec else "<sym>"
+
     @property
     def is_int(s):
         return not _is_real(s.t)
